@@ -74,7 +74,7 @@ package keeper
 //@   returns hashLock, transfer, dir, err
 //@   let h = get(htlcs, id)
 //@   requires height >= 0
-//@   requires allSupWF && escrowInv && countersInv && allRecWF
+//@   requires allSupWF && paramsValid && escrowInv && countersInv && allRecWF
 //@   modifies bal, supply, htlcs, queue, supplies
 //@   lemma @return sumsUpd(old(htlcs), id, get(htlcs, id), anydenom(1)) if err == nil
 //@   ensures @C04 keeps_escrow:   err == nil ==> bal(MOD, anydenom(1)) == ESC(htlcs, anydenom(1))
@@ -85,6 +85,11 @@ package keeper
 //@   ensures preimage:  err == nil ==> types.GetHashLock(secret, h.Timestamp) == unhex(h.HashLock)
 //@   ensures wrong_secret_rejected: types.GetHashLock(secret, h.Timestamp) != unhex(h.HashLock) ==> err != nil
 //@   ensures not_open_rejected: !old(has(htlcs, id)) || h.State != OPEN ==> err != nil
+// ... and if: the pre-image of the stored hash lock claims an open plain contract, whatever letter case the stored hash
+// lock is written in (a genesis file may carry it in lower case) - the escrow covers it by the module invariant; the
+// bank refuses to pay a blocked (module) account, which is then refunded at expiry
+//@   lemma @entry sumsGeAll(htlcs, id)
+//@   ensures @C03 right_secret_accepted: old(has(htlcs, id)) && h.State == OPEN && !h.Transfer && !blocked[addr(h.To)] && types.GetHashLock(secret, h.Timestamp) == unhex(h.HashLock) ==> err == nil
 //@   ensures completed: err == nil ==> htlcs == set(old(htlcs), id, closed(with(h, "Secret", ufstr("hex_upper", secret)), COMPLETED, height))
 //@   ensures dequeued:  err == nil ==> queue == del(old(queue), h.ExpirationHeight, id)
 //@   ensures paid:      err == nil && !h.Transfer ==> bal == payOut(old(bal), addr(h.To), h.Amount) && supply == old(supply) && supplies == old(supplies)
@@ -128,7 +133,7 @@ package keeper
 //@ define addTo(c, x) = coin(c.Denom, c.Amount + x)
 
 //@ func Keeper.GetAsset(ctx, denom)
-//@   property C03, C04
+//@   property C03, C04, C16
 //@   returns asset, err
 //@   invariant #1 idx:  rangeindex >= 0 - 1 && rangeindex < len(ASSETS)
 //@   invariant #1 none: forall j:Int :: 0 <= j && j <= rangeindex ==> ASSETS[j].Denom != denom
@@ -136,10 +141,11 @@ package keeper
 //@   ensures found: err == nil ==> asset == ASSET(denom) && asset.Denom == denom
 //@   ensures valid: err == nil && types.assetsOK(ASSETS) ==> types.assetOK(asset)
 //@   ensures unsupported: err != nil ==> (forall j:Int :: 0 <= j && j < len(ASSETS) ==> ASSETS[j].Denom != denom)
+//@   nopanic C16
 //@ end
 
 //@ func Keeper.IncrementIncomingAssetSupply(ctx, coin)
-//@   property C04
+//@   property C04, C16
 //@   returns err
 //@   requires supWF(coin.Denom) && coin.Amount >= 0
 //@   let r = SUP(coin.Denom)
@@ -149,10 +155,14 @@ package keeper
 //@   ensures time_limit: err == nil && ASSET(coin.Denom).SupplyLimit.TimeLimited ==>
 //@                    r.TimeLimitedCurrentSupply.Amount + r.IncomingSupply.Amount + coin.Amount <= ASSET(coin.Denom).SupplyLimit.TimeBasedLimit
 //@   ensures keeps_wf: err == nil ==> supWF(coin.Denom)
+// whatever the stored counters are in relation to the limits in force (the authority may lower a limit below what is
+// already counted), the limit checks reject, they never abort (C16)
+//@   requires paramsValid
+//@   nopanic C16
 //@ end
 
 //@ func Keeper.DecrementIncomingAssetSupply(ctx, coin)
-//@   property C04, C13
+//@   property C03, C04, C13
 //@   returns err
 //@   requires supWF(coin.Denom) && coin.Amount >= 0
 //@   let r = SUP(coin.Denom)
@@ -165,7 +175,7 @@ package keeper
 //@ end
 
 //@ func Keeper.IncrementOutgoingAssetSupply(ctx, coin)
-//@   property C04
+//@   property C04, C16
 //@   returns err
 //@   requires supWF(coin.Denom) && coin.Amount >= 0
 //@   let r = SUP(coin.Denom)
@@ -173,10 +183,14 @@ package keeper
 //@   ensures counted: err == nil ==> old(has(supplies, coin.Denom)) && supplies == set(old(supplies), coin.Denom, with(r, "OutgoingSupply", addTo(r.OutgoingSupply, coin.Amount)))
 //@   ensures available: err == nil ==> r.OutgoingSupply.Amount + coin.Amount <= r.CurrentSupply.Amount
 //@   ensures keeps_wf: err == nil ==> supWF(coin.Denom)
+// whatever the stored counters are in relation to the limits in force (the authority may lower a limit below what is
+// already counted), the limit checks reject, they never abort (C16)
+//@   requires paramsValid
+//@   nopanic C16
 //@ end
 
 //@ func Keeper.DecrementOutgoingAssetSupply(ctx, coin)
-//@   property C04, C13
+//@   property C03, C04, C13
 //@   returns err
 //@   requires supWF(coin.Denom) && coin.Amount >= 0
 //@   let r = SUP(coin.Denom)
@@ -189,7 +203,7 @@ package keeper
 //@ end
 
 //@ func Keeper.IncrementCurrentAssetSupply(ctx, coin)
-//@   property C04
+//@   property C04, C16
 //@   returns err
 //@   requires supWF(coin.Denom) && coin.Amount >= 0
 //@   let r = SUP(coin.Denom)
@@ -200,10 +214,14 @@ package keeper
 //@   ensures limit:   err == nil ==> r.CurrentSupply.Amount + coin.Amount <= ASSET(coin.Denom).SupplyLimit.Limit
 //@   ensures time_limit: err == nil && tl ==> r.TimeLimitedCurrentSupply.Amount + coin.Amount <= ASSET(coin.Denom).SupplyLimit.TimeBasedLimit
 //@   ensures keeps_wf: err == nil ==> supWF(coin.Denom)
+// whatever the stored counters are in relation to the limits in force (the authority may lower a limit below what is
+// already counted), the limit checks reject, they never abort (C16)
+//@   requires paramsValid
+//@   nopanic C16
 //@ end
 
 //@ func Keeper.DecrementCurrentAssetSupply(ctx, coin)
-//@   property C04
+//@   property C04, C16
 //@   returns err
 //@   requires supWF(coin.Denom) && coin.Amount >= 0
 //@   let r = SUP(coin.Denom)
@@ -211,6 +229,10 @@ package keeper
 //@   ensures counted: err == nil ==> old(has(supplies, coin.Denom)) && r.CurrentSupply.Amount >= coin.Amount
 //@                    && supplies == set(old(supplies), coin.Denom, with(r, "CurrentSupply", addTo(r.CurrentSupply, 0 - coin.Amount)))
 //@   ensures keeps_wf: err == nil ==> supWF(coin.Denom)
+// whatever the stored counters are in relation to the limits in force (the authority may lower a limit below what is
+// already counted), the limit checks reject, they never abort (C16)
+//@   requires paramsValid
+//@   nopanic C16
 //@ end
 
 // ---------------------------------------------------------------------------------------------
@@ -241,7 +263,7 @@ package keeper
 //@ func Keeper.claimHTLT(ctx, htlc)
 //@   property C03, C04
 //@   returns err
-//@   requires allSupWF
+//@   requires allSupWF && paramsValid
 //@   requires len(htlc.Amount) == 1 && bechok(htlc.To)
 //@   let c0 = C0(htlc.Amount)
 //@   let r = SUP(c0.Denom)
@@ -421,7 +443,7 @@ package keeper
 //@   returns resp, err
 //@   let h = get(htlcs, unhex(msg.Id))
 //@   requires height >= 0
-//@   requires allSupWF && escrowInv && countersInv && allRecWF
+//@   requires allSupWF && paramsValid && escrowInv && countersInv && allRecWF
 //@   modifies bal, supply, htlcs, queue, supplies
 //@   ensures only_open_with_preimage: err == nil ==> old(has(htlcs, unhex(msg.Id))) && h.State == OPEN
 //@                   && types.GetHashLock(unhex(msg.Secret), h.Timestamp) == unhex(h.HashLock)
